@@ -235,3 +235,16 @@ class Falsy:
 
     def __repr__(self):
         return f"Falsy({self.tag!r})"
+
+
+async def swallowed_cancel():
+    """Make the current task one that WAS cancelled, received the CancelledError and carried on (a graceful-shutdown handler,
+    a restartable worker): Task.cancelling() stays above zero although nothing is pending.  Library code that asks
+    "was I asked to cancel" through cancelling() on behalf of a user function must not mistake that for a new request."""
+    task = asyncio.current_task()
+    task.cancel()
+    try:
+        await asyncio.sleep(0)
+    except asyncio.CancelledError:
+        pass
+    assert task.cancelling() == 1
